@@ -310,6 +310,12 @@ def metaclass_setattr_contract():
                 q2 = st.fork()
                 # a validator may reject with any exception type (Path parameters raise OSError)
                 return [(st, Conc(None)), (q, Raise("ValueError", origin="__set__")), (q2, Raise("OSError", origin="__set__"))]
+            if name == "_set_names":
+                # a Parameter object assigned to a class attribute learns its name (before anything is
+                # written); a Parameter that already belongs elsewhere under another name refuses
+                st.ghost["log"] = st.ghost.get("log", []) + [("set-names", selfv, list(args))]
+                q = st.fork()
+                return [(st, Conc(None)), (q, Raise("AttributeError", origin="_set_names"))]
             return prev_vm(I, st, name, selfv, args, kwargs, ctx) if prev_vm is not None else None
         I.lib["$value_method"] = vmethod
 
@@ -365,7 +371,8 @@ def metaclass_setattr_contract():
             d = [i for i, k in enumerate(kinds) if k == "classdict-delete"]
             undone = all(any(j > i and log[j][1] == log[i][1] and log[j][2] is log[i][2] for j in d) for i in w)
             out.append(("C02/a rejected class-level assignment leaves the class without a copy of the inherited Parameter",
-                        z3.BoolVal(oc.origin == "__set__" and undone)))
+                        # (a Parameter object that refuses the name is refused before anything is written)
+                        z3.BoolVal((oc.origin == "__set__" or (oc.origin == "_set_names" and not w)) and undone)))
             out.append(("C02/… and the cache is cleared after the copy is removed",
                         z3.BoolVal(all(any(j > i for j in c) for i in d))))
             return out
